@@ -132,6 +132,65 @@ def loop_body_effect(fn, cfg, next_bb):
             ordered.append(name)
         if c == "std::ops::FromResidual::from_residual" and False:
             pass
+    # loop-carried state: a variable assigned in the body from something that is not a commutative update of itself, and
+    # read in the body at a point its in-body assignment does not dominate, carries a value from one iteration into the
+    # next - which items come "before" then matters (`if let Some(f) = file { cfg = load(f) }; use(&cfg)`)
+    du0 = mir.DefUse(fn)
+    dom = cfg.dom()
+    COMMUT = ("Add", "AddWithOverflow", "Mul", "MulWithOverflow", "BitOr", "BitAnd", "BitXor")
+    for l, defs in du0.defs.items():
+        inbody = [d for d in defs if d[1] in body]
+        if not inbody or len(inbody) == len(defs) and l > fn["argc"] and not any(d[1] not in body for d in defs):
+            continue   # never initialised outside the loop: a per-iteration temporary
+        carried = []
+        for d in inbody:
+            if d[0] == "call":
+                c0 = d[3].get("callee") or ""
+                if c0.startswith("std::iter::") or c0.endswith("::next") or c0.startswith("std::ops::Try") or c0.startswith("std::ops::FromResidual"):
+                    continue
+                carried.append("the result of %s" % c0.split("::")[-1])
+            else:
+                rv = d[3]["rv"]
+                if rv["k"] == "use" and mir.op_const(rv["op"]) is not None:
+                    continue   # a flag set to a constant: idempotent
+                if rv["k"] == "binop" and rv["op"] in COMMUT:
+                    continue   # sum / product / bit-or accumulator
+                if rv["k"] == "use":
+                    pl = mir.op_place(rv["op"])
+                    if pl is not None and pl["p"] and any(p[0] == "f" and p[1] == "0" for p in pl["p"]):
+                        # `.0` of an overflow-checked commutative op on itself
+                        src = [x for x in du0.defs.get(pl["l"], []) if x[0] == "stmt" and x[3]["rv"]["k"] == "binop" and x[3]["rv"]["op"] in COMMUT]
+                        if src:
+                            continue
+                if rv["k"] in ("discr", "ref", "rawptr"):
+                    continue
+                carried.append("a value computed in the loop")
+        if not carried:
+            continue
+        ty = fn["locals"][l] if l < len(fn["locals"]) else ""
+        if ty in ("bool", "()", "isize", "!") or ty.startswith("&") or "Iter" in ty or "ControlFlow" in ty or "std::option::Option<" in ty and "next" in ty:
+            continue
+        def_blocks = {d[1] for d in inbody}
+        # a read of l inside the body that no in-body definition dominates
+        for b in body:
+            blk = fn["blocks"][b]
+            reads = False
+            for st in blk["s"]:
+                for o in mir.all_operands_of_rv(st["rv"]):
+                    pl = mir.op_place(o)
+                    if pl is not None and pl["l"] == l:
+                        reads = True
+                if st["rv"]["k"] in ("ref", "rawptr", "discr") and st["rv"]["pl"]["l"] == l:
+                    reads = True
+            t = blk["t"]
+            if t["k"] == "call":
+                for a in t["args"]:
+                    pl = mir.op_place(a)
+                    if pl is not None and pl["l"] == l:
+                        reads = True
+            if reads and b not in def_blocks and not any(db in dom.get(b, ()) for db in def_blocks):
+                nm = next((n for n, vpl in fn.get("vars", ()) if vpl["l"] == l and not vpl["p"]), "_%d" % l)
+                return "ordered", "the loop carries `%s` (%s) from one iteration into the next: what a later item sees depends on which items came before it" % (nm, carried[0])
     # inserts into a map are order-neutral only when distinct items get distinct keys: the key must be the iterated item
     # itself (moved, borrowed, cloned, converted 1:1), not something computed from it (to_lowercase, trim, a constant ...)
     du = mir.DefUse(fn)
